@@ -32,11 +32,13 @@ impl AdjacencyMatrix {
     @loop 2
     invariant
         u < order,
+        // the candidates v are vertices other than u: the documented panics of add_arc (self-loop, id out of range) cannot occur
+        forall|i: int| 0 <= i < it2.seq().len() ==> #[trigger] it2.seq()[i] < order && it2.seq()[i] != u,
         digraph.wf(),
         digraph.order == order,
         digraph.simple_on(order as int),
     @before `digraph.add_arc(`
-        // the documented panics of add_arc (self-loop, id out of range) cannot occur
+        assert(v == it2.seq()[it2.index@]);
         assert(u != v && u < order && v < order);
     @*/
 
@@ -86,6 +88,7 @@ impl AdjacencyMatrix {
     @loop_start 1
         let ghost d0 = digraph;
         assert((u, v) == it1.seq()[it1.index@]);
+        // the documented panics of add_arc (self-loop, id out of range) cannot occur, nor a division by zero
         assert(1 <= u < order);
     @loop_end 1
         proof { lemma_matrix_tree_step(d0, digraph, u as int, (v as usize % u) as int); }
@@ -94,64 +97,47 @@ impl AdjacencyMatrix {
     @*/
 }
 
-/// giving vertex u (the first one without a parent) an arc to a smaller vertex extends the tree by u
+/// giving vertex u (the first one without a parent) an arc to a smaller vertex q extends the tree by u
+/// (stated as an implication so that a failing premise surfaces at the loop invariant, not at this hint)
 proof fn lemma_matrix_tree_step(d0: AdjacencyMatrix, d1: AdjacencyMatrix, u: int, q: int)
-    requires
-        d1.order == d0.order,
-        1 <= u < d0.order,
-        d0.tree_upto(u),
-        0 <= q < u,
-        forall|a: int, b: int| #![trigger d1.has(a, b)] d1.has(a, b) == (d0.has(a, b) || (a == u && b == q)),
     ensures
-        d1.tree_upto(u + 1),
+        (d1.order == d0.order
+            && 1 <= u < d0.order
+            && d0.tree_upto(u)
+            && 0 <= q < u
+            && (forall|a: int, b: int| #![trigger d1.has(a, b)] d1.has(a, b) == (d0.has(a, b) || (a == u && b == q))))
+        ==> d1.tree_upto(u + 1),
 {
-    assert forall|a: int| #![trigger d1.one_parent(a)] #![trigger d1.no_out(a)]
-        if 1 <= a < u + 1 { d1.one_parent(a) } else { d1.no_out(a) } by {
-        if 1 <= a < u {
-            assert(d0.one_parent(a));
-            let q0 = choose|q0: int| 0 <= q0 < a && #[trigger] d0.has(a, q0) && d0.only_out(a, q0);
-            assert(d1.has(a, q0));
-            assert(d1.only_out(a, q0)) by {
-                assert forall|w: int| #![trigger d1.has(a, w)] d1.has(a, w) implies w == q0 by { assert(d0.has(a, w)); }
+    if d1.order == d0.order && 1 <= u < d0.order && d0.tree_upto(u) && 0 <= q < u
+        && (forall|a: int, b: int| #![trigger d1.has(a, b)] d1.has(a, b) == (d0.has(a, b) || (a == u && b == q))) {
+        assert forall|a: int| #![trigger d1.one_parent(a)] #![trigger d1.no_out(a)]
+            if 1 <= a < u + 1 { d1.one_parent(a) } else { d1.no_out(a) } by {
+            if 1 <= a < u {
+                assert(d0.one_parent(a));
+                let q0 = choose|q0: int| 0 <= q0 < a && #[trigger] d0.has(a, q0) && d0.only_out(a, q0);
+                assert(d1.has(a, q0));
+                assert(d1.only_out(a, q0)) by {
+                    assert forall|w: int| #![trigger d1.has(a, w)] d1.has(a, w) implies w == q0 by { assert(d0.has(a, w)); }
+                }
+            } else if a == u {
+                assert(d0.no_out(u));
+                assert(d1.has(u, q));
+                assert(d1.only_out(u, q)) by {
+                    assert forall|w: int| #![trigger d1.has(u, w)] d1.has(u, w) implies w == q by { assert(!d0.has(u, w)); }
+                }
+            } else {
+                assert(d0.no_out(a));
+                assert forall|w: int| #![trigger d1.has(a, w)] !d1.has(a, w) by { assert(!d0.has(a, w)); }
             }
-        } else if a == u {
-            assert(d0.no_out(u));
-            assert(d1.has(u, q));
-            assert(d1.only_out(u, q)) by {
-                assert forall|w: int| #![trigger d1.has(u, w)] d1.has(u, w) implies w == q by { assert(!d0.has(u, w)); }
-            }
-        } else {
-            assert(d0.no_out(a));
-            assert forall|w: int| #![trigger d1.has(a, w)] !d1.has(a, w) by { assert(!d0.has(a, w)); }
         }
     }
 }
 
 proof fn lemma_matrix_tree_done(d: AdjacencyMatrix)
-    requires d.tree_upto(d.order as int),
-    ensures d.recursive_tree(),
+    ensures d.tree_upto(d.order as int) ==> d.recursive_tree(),
 {
-    assert(d.no_out(0));
-    assert forall|a: int| 1 <= a < d.order implies #[trigger] d.one_parent(a) by {}
-}
-
-mod edge_gen {
-use super::*;
-//@import units/inc/edge_list_core.inc.rs
-//@file src/repr/edge_list/mod.rs
-impl EdgeList {
-    /*@fn trait=Empty name=trivial file=src/gen/empty.rs dropwhere=Self
-    ensures
-        r.wf(),
-        r.ord() == 1,
-    @*/
-
-    /*@fn impl=EdgeList trait=RandomRecursiveTree name=random_recursive_tree
-    ensures
-        order >= 1,
-        r.wf(),
-        r.ord() == order,
-    @closure 1 |u: usize| -> (s: (usize, usize))
-    @*/
-}
+    if d.tree_upto(d.order as int) {
+        assert(d.no_out(0));
+        assert forall|a: int| 1 <= a < d.order implies #[trigger] d.one_parent(a) by {}
+    }
 }
